@@ -61,7 +61,58 @@ def models(name):
         "matrix_2x2": dict(modes=[a], H0=sympy.Matrix([[w * Na, 0], [0, w * Na + D]]), H1=sympy.Matrix([[a + Dagger(a), a + Dagger(a)], [a + Dagger(a), 0]]), blocks=[0, 1]),
         "matrix_1block": dict(modes=[a], H0=sympy.Matrix([[w * Na, 0], [0, w * Na + D]]), H1=sympy.Matrix([[0, a], [Dagger(a), a + Dagger(a)]])),
     }
+    if name.startswith(("random:", "randomfree:")):
+        return _random_model(int(name.split(":")[1]), dict(a=a, b=b, c=c, d=d, e=e, sm=sm, l=l), interaction=name.startswith("random:"))
     return M[name]
+
+
+def _random_model(seed, ops, interaction=True):
+    """Seeded random polynomial perturbation W + W^dagger in 1-3 modes of mixed statistics over a generic number-conserving H_0
+    (symbolic level spacings, optionally a density-density interaction).  The enumerated part of the thorough C07 claim."""
+    import random
+
+    from pymablock.number_ordered_form import NumberOperator
+
+    rng = random.Random(seed)
+    st = pauli.SigmaMinus("t")
+    pools = [["a"], ["a", "b"], ["a", "c"], ["c", "d"], ["a", "sm"], ["sm", "c"], ["c", "d", "e"], ["l", "c"], ["sm", "st"], ["l", "sm"], ["a", "c", "sm"]]
+    names = rng.choice(pools)
+    ops = dict(ops, st=st)
+    modes = [ops[n] for n in names]
+
+    def number(x):
+        if isinstance(x, pauli.SigmaMinus):
+            return pauli.SigmaZ(x.name) / 2
+        if isinstance(x, (BosonOp, FermionOp)):
+            return Dagger(x) * x
+        return NumberOperator(x)
+
+    freqs = sympy.symbols(" ".join(f"w_{n}" for n in names) + " ", real=True)
+    freqs = freqs if isinstance(freqs, (tuple, list)) else [freqs]
+    H0 = sum(f * number(x) for f, x in zip(freqs, modes))
+    if not interaction:
+        # third order with occupation-dependent denominators and complex couplings takes the library itself > 5 min (probe)
+        pass
+    elif len(modes) >= 2 and rng.random() < 0.4:
+        H0 = H0 + sympy.Symbol("alpha", real=True) * number(modes[0]) * number(modes[1])
+    elif isinstance(modes[0], BosonOp) and rng.random() < 0.4:
+        H0 = H0 + sympy.Symbol("alpha", real=True) * number(modes[0]) ** 2
+    letters = []
+    for x in modes:
+        letters += [x, Dagger(x)]
+    coefs = [1, 2, sympy.Rational(1, 2), sympy.I, 1 + sympy.I, sympy.Rational(-3, 2)]
+    H1 = 0
+    maxlen = 2 if len(modes) >= 2 else 3
+    for _ in range(rng.choice([1, 2, 2, 3])):
+        W = sympy.S.One
+        for _ in range(rng.randint(1, maxlen)):
+            W = W * rng.choice(letters)
+        cf = rng.choice(coefs)
+        H1 = H1 + cf * W + sympy.conjugate(cf) * Dagger(W)
+    H1 = sympy.expand(H1)
+    if H1 == 0:
+        H1 = letters[0] + letters[1]
+    return dict(modes=modes, H0=H0, H1=H1)
 
 
 def _run_library(m, max_order):
@@ -423,6 +474,12 @@ def configs(tier):
                 ("boson_complex_drive", 2), ("boson_complex_harmonic", 3), ("fermion_complex_hop", 4), ("rabi_y", 3), ("matrix_complex", 3), ("spin_boson_fermion", 3)]
     for name, mo in quick if tier == "quick" else thorough:
         cfgs.append(dict(model=name, max_order=mo, _timeout_s=300 if tier == "quick" else 1500))
+    # seeded random polynomial models (fixed seeds per tier: the encoding is regenerated, the set is stated)
+    for seed in range(12 if tier == "quick" else 60):
+        cfgs.append(dict(model=f"random:{seed}", max_order=2, _timeout_s=300 if tier == "quick" else 900))
+    if tier == "thorough":
+        for seed in range(100, 140):
+            cfgs.append(dict(model=f"randomfree:{seed}", max_order=3, _timeout_s=900))
     return [("vf.props.secondq", "c07", c) for c in cfgs]
 
 
